@@ -2,6 +2,7 @@ package main
 
 import (
 	"fmt"
+	"go/token"
 	"go/types"
 	"strings"
 
@@ -17,6 +18,34 @@ func init() {
 		Assumptions: []string{"ed25519", "Go channels deliver each value once"},
 		Declined:    "no loss/duplication for all arrival timings as a statement over schedules; that any modified field or signature byte stops verification (cryptography).",
 	}, runC17)
+}
+
+// falseOnlyOnError: g returns one bool, and every `return false` of g lies on an error edge (err != nil).
+func falseOnlyOnError(p *Program, g *ssa.Function) bool {
+	if len(g.Blocks) == 0 || g.Signature.Results().Len() != 1 || !isBool(g.Signature.Results().At(0).Type()) {
+		return false
+	}
+	sawFalse := false
+	for _, b := range g.Blocks {
+		ret, ok := b.Instrs[len(b.Instrs)-1].(*ssa.Return)
+		if !ok || b == g.Recover {
+			continue
+		}
+		k, isC := RetVal(ret, 0).(*ssa.Const)
+		if !isC || k.Value == nil {
+			return false
+		}
+		if k.Value.String() == "true" {
+			continue
+		}
+		sawFalse = true
+		if !hasCond(p.CondsAt(b), func(c Cond) bool {
+			return !c.Pol && c.Atom.Op == "EQ" && len(c.Atom.Args) == 2 && (isErrorTerm(c.Atom.Args[0]) || isErrorTerm(c.Atom.Args[1]))
+		}) {
+			return false
+		}
+	}
+	return sawFalse
 }
 
 // reachesWithout: starting after `from`, can `target` be reached without executing `blocker`?
@@ -276,10 +305,31 @@ func c17Batcher(c *Ctx, bt *ssa.Function) {
 	isPublish = rg.deepHit(isPublishHere, mustOpts{skipErrEdges: true}, map[*ssa.Function]int{}, 0)
 	isSelect := func(in ssa.Instruction) bool { _, ok := in.(*ssa.Select); return ok }
 	errSkip := func(b *ssa.BasicBlock) int {
-		if ifi := blockIf(b); ifi != nil {
-			return p.errEdge(ifi)
+		ifi := blockIf(b)
+		if ifi == nil {
+			return -1
 		}
-		return -1
+		if k := p.errEdge(ifi); k >= 0 {
+			return k
+		}
+		// the boolean verdict of a helper of the package that says "false" only on its own error edges
+		// (`if !s.publishBatch(batch) { continue }`): the false outcome is an error edge of the caller
+		v, neg := ifi.Cond, false
+		for {
+			u, ok := v.(*ssa.UnOp)
+			if !ok || u.Op != token.NOT {
+				break
+			}
+			v, neg = u.X, !neg
+		}
+		call, ok := v.(*ssa.Call)
+		if !ok || call.Call.StaticCallee() == nil || call.Call.StaticCallee().Pkg != bt.Pkg || !falseOnlyOnError(p, call.Call.StaticCallee()) {
+			return -1
+		}
+		if neg {
+			return 0
+		}
+		return 1
 	}
 	// the append of the received snapshot
 	var app ssa.Instruction
